@@ -668,3 +668,12 @@ def crafted(case, ctx):
                   (what, len(got), len(expect), rets), "crafted/%s/in-sequence-record-refused" % proto)
     finally:
         s.finish()
+
+
+# ---------------------------------------------------------------------------
+# "No record of any length up to the protocol maximum makes unprotection write outside the caller's buffer" also holds for the records
+# an endpoint unprotects inside the handshake (the Finished messages into fixed stack buffers) and for what a peer that holds the keys
+# sends afterwards: the scripted peers of C06 (props/c06x/peerfuzz.py), restricted to protected records and to the mutation classes that
+# change a record's size, padding or framing, under ASan with the TLS_CONNECT invariants.
+from props.c06x import peerfuzz as _pf
+_pf.register(P, quick=1500, thorough=40000, name="peerrecords", strategy=_pf.records_s)
